@@ -65,11 +65,23 @@ def main():
         # leave Gen/ and build/ as the unchanged tree produces them
         sh("cd %s && ./check C16 quick && ./check C20 quick && ./check C09 quick" % V)
         shutil.copytree(evbak, V + "/evidence", dirs_exist_ok=True) if os.path.exists(evbak) else None
+    # the table is rebuilt from every seed's meta.json, so partial runs keep the other rows
+    rows = []
+    for sd in sorted(d for d in os.listdir(V + "/seeded") if os.path.isdir(V + "/seeded/" + d)):
+        meta = json.load(open("%s/seeded/%s/meta.json" % (V, sd)))
+        if "detected_by" not in meta or not meta.get("checks_run"):
+            rows.append((sd, meta["breaks_property"], "(matrix not run yet)", ""))
+            continue
+        own = meta["breaks_property"]
+        hit = meta["detected_by"].get(own, {}).get("verdict", "MISSED")
+        others = [p + ("*" if v["verdict"] != "failing-input" else "") for p, v in meta["detected_by"].items() if p != own]
+        rows.append((sd, own, hit, " ".join(others)))
     with open(V + "/seeded/RESULTS.md", "w") as f:
         f.write("# Seeded changes vs. checks\n\nEach change was produced by an independent sub-agent from the property text only, confirmed by tools/verify_seed.sh "
                 "(compiles, existing suite passes, demonstration fails with it and passes without it), then applied to /repo, all 20 quick checks run, and undone "
                 "(tools/seed_matrix.py). `failing-input` = VIOLATION with a concrete replay on the real code; entries marked * reported "
-                "`no-failing-input-found` (broken obligation or correspondence, property not violated or no input found).\n\n")
+                "`no-failing-input-found` (broken obligation or correspondence, property not violated or no input found). Seeds named `-r2-` come from a second round "
+                "in which the sub-agent was told which idea the first round had used and asked for a different function / clause.\n\n")
         f.write("| seed | breaks | own check | other checks that also report |\n|---|---|---|---|\n")
         for r in rows:
             f.write("| %s | %s | %s | %s |\n" % r)
